@@ -1122,16 +1122,26 @@ pub fn maps_case_full(inp: &Input, gc_runs: u32, xform: bool, edit: bool) -> Val
     };
     if edit {
         let last = module.imports.iter().filter_map(|i| if let walrus::ImportKind::Function(f) = i.kind { Some(f) } else { None }).last();
-        let Some(f) = last else { return json!({"id": inp.id, "source": inp.source, "outcome": "skip-no-imported-function"}) };
+        if let Some(f) = last {
+            let r = std::panic::catch_unwind(std::panic::AssertUnwindSafe(|| {
+                module.replace_imported_func(f, |(body, _args)| {
+                    body.unreachable();
+                })
+            }));
+            match r {
+                Ok(Ok(_)) => {}
+                Ok(Err(e)) => return json!({"id": inp.id, "source": inp.source, "outcome": format!("edit-err:{}", run::short(&format!("{:#}", e)))}),
+                Err(p) => return json!({"id": inp.id, "source": inp.source, "outcome": format!("edit-panic:{}", run::short(&run::panic_msg(p)))}),
+            }
+        }
+        // imports added through the API come *after* the local entities in the arenas, and first in the index spaces
         let r = std::panic::catch_unwind(std::panic::AssertUnwindSafe(|| {
-            module.replace_imported_func(f, |(body, _args)| {
-                body.unreachable();
-            })
+            module.add_import_memory("env", "wv_mem", false, false, 1, None, None);
+            module.add_import_table("env", "wv_tab", false, 1, None, walrus::RefType::Funcref);
+            module.add_import_global("env", "wv_glob", walrus::ValType::I32, false, false);
         }));
-        match r {
-            Ok(Ok(_)) => {}
-            Ok(Err(e)) => return json!({"id": inp.id, "source": inp.source, "outcome": format!("edit-err:{}", run::short(&format!("{:#}", e)))}),
-            Err(p) => return json!({"id": inp.id, "source": inp.source, "outcome": format!("edit-panic:{}", run::short(&run::panic_msg(p)))}),
+        if let Err(p) = r {
+            return json!({"id": inp.id, "source": inp.source, "outcome": format!("edit-panic:{}", run::short(&run::panic_msg(p)))});
         }
     }
     for _ in 0..gc_runs {
